@@ -38,7 +38,7 @@ def reachable_mutables(obj, Rp, seen=None, path='state'):
     return seen
 
 
-OPS = ('assign', 'repopulate', 'statistics', 'optimise', 'relabel', 'shallow_copy', 'deep_copy')
+OPS = ('assign', 'assign_inplace', 'repopulate', 'statistics', 'optimise', 'relabel', 'shallow_copy', 'deep_copy')
 
 
 class C13(Check):
@@ -74,7 +74,7 @@ class C13(Check):
 
     def bounds(self, tier):
         if tier == 'quick':
-            return {'single ops': 'K=2,P<=4 and K=3,P=3; m=1', 'chains': 'K=2,P=3, all ordered pairs of 5 phase operations',
+            return {'single ops': 'K=2,P<=4 and K=3,P=3; m=1', 'chains': 'K=2,P=3, all ordered pairs of 5 phase operations, and each phase operation (and deep_copy) followed by an in-place label assignment on its result (a shallow copy documents that it shares its clusters)',
                     'deep copy': 'K=2, P=3, scalar and array-valued lambda/beta'}
         return {'single ops': 'K=2,P<=5 and K=3,P<=4; m<=2', 'chains': 'K=2,P=4 and K=3,P=3, all ordered pairs',
                 'deep copy': 'K<=3, P<=4, scalar and array-valued lambda/beta'}
@@ -88,7 +88,7 @@ class C13(Check):
                 cfgs.append(Config('op_%s_K%d_P%d' % (op, K, P), self.one_op, {'op': op, 'K': K, 'P': P},
                                    split=3))
         phase_ops = ('assign', 'repopulate', 'statistics', 'optimise', 'relabel')
-        for a, b in itertools.product(phase_ops, phase_ops):
+        for a, b in list(itertools.product(phase_ops, phase_ops)) + [(a, 'assign_inplace') for a in phase_ops + ('deep_copy',)]:
             for (K, P) in ([(2, 3)] if q else [(2, 4), (3, 3)]):
                 cfgs.append(Config('chain_%s_%s_K%d_P%d' % (a, b, K, P), self.chain,
                                    {'op1': a, 'op2': b, 'K': K, 'P': P}, split=3))
@@ -121,6 +121,11 @@ class C13(Check):
             new.clusters = [x.deep_copy() for x in new.clusters]
             new.point_labels = [c.int('%s_a_%d' % (tag, i), 0, K - 1) for i in range(P)]
             return new
+        if op == 'assign_inplace':
+            # the setter applied to the very state it is given (that state changes, by design;
+            # every OTHER state produced earlier must stay intact)
+            st.point_labels = [c.int('%s_i_%d' % (tag, i), 0, K - 1) for i in range(P)]
+            return st
         if op == 'shallow_copy':
             return st.shallow_copy()
         if op == 'deep_copy':
@@ -175,7 +180,7 @@ class C13(Check):
             return
         c.notes['labels_after'] = states.labels_of(new)
         c.prove('invariant_after_op', states.invariant(new, K, P))
-        c.prove('input_intact_after_op', states.intact(st, fz))
+        c.prove('input_intact_after_op', True if op == 'assign_inplace' else states.intact(st, fz))
 
     def chain(self, c, op1, op2, K, P):
         st, data = self._mk(c, K, P)
@@ -188,8 +193,9 @@ class C13(Check):
         ok, new = guarded(c, 'first_input_intact_after_two_ops', self._apply, c, op2, mid, data, K, P, 'o2')
         if not ok:
             return
-        f = [states.intact(st, fz), states.invariant(new, K, P), states.invariant(mid, K, P)]
-        if fz2 is not None:
+        f = [states.intact(st, fz) if not (op2 == 'assign_inplace' and mid is st) else True,
+             states.invariant(new, K, P), states.invariant(mid, K, P), states.invariant(st, K, P)]
+        if fz2 is not None and op2 != 'assign_inplace':
             f.append(states.intact(mid, fz2))
         c.prove('first_input_intact_after_two_ops', conj(f))
 
